@@ -485,7 +485,7 @@ let run_case (toks : sx list) : string =
               (if ok then "" else "skip ") ^ head !w.M.r_stt ^ "|" ^ dump !w) ops in
       List.iter (fun i -> w := M.r_step !w (M.RDestroy (nat_of_int i))) [0; 1; 2];
       String.concat " " outs ^ " end=" ^ head !w.M.r_stt
-  | [A "var"; A ops] ->
+  | [A (("var" | "varm") as vkind); A ops] ->
       let ops = String.split_on_char ',' ops in
       let arg s = List.map int_of_string (String.split_on_char ':' (String.sub s 1 (String.length s - 1))) in
       let parse s : M.vop option =
@@ -502,7 +502,7 @@ let run_case (toks : sx list) : string =
           | None -> "X"
           | Some v -> if v.M.v_index = z_of_int (-1) then "E"
                       else (match v.M.v_slot with M.Alive x -> "A" ^ string_of_z v.M.v_index ^ ":" ^ string_of_z x | M.Dead -> "DEAD")) w.M.v_objs) in
-      let w = ref (M.v_init (nat_of_int 3) (z_of_int 3)) in
+      let w = ref (M.v_init (nat_of_int 3) (z_of_int (if vkind = "varm" then 4 else 3))) in
       let outs = List.map (fun s ->
           match parse s with
           | None -> "skip " ^ head !w.M.v_stt ^ "|" ^ dump !w
